@@ -104,11 +104,13 @@ type subRec struct {
 	// value in flight up after forwardGrace (100 ms) without a reader once the context is cancelled, so a
 	// close seen less than that after the cancel cannot have involved a discarded value.
 	cancelAt, closedAt time.Time
+	rcvAtCancel        int // values the consumer had received when the subscription was cancelled
+	delayUS            int // the consumer's pause after every value it receives
 }
 
 // subscribe creates a subscriber; lower() / upper() bound the number of state changes "now".
 func subscribe(s stateable, lower, upper func() int, delayUS int) *subRec {
-	sr := &subRec{done: make(chan struct{}), ulo: -1, uhi: -1}
+	sr := &subRec{done: make(chan struct{}), ulo: -1, uhi: -1, delayUS: delayUS}
 	ctx, cf := context.WithCancel(context.Background())
 	sr.cf = cf
 	sr.lo = lower()
@@ -141,8 +143,39 @@ func (sr *subRec) cancelNow(lower, upper func() int) {
 	sr.cancel = true
 	sr.ulo = lower()
 	sr.cancelAt = time.Now()
+	sr.rcvAtCancel = len(sr.got)
 	sr.mu.Unlock()
 	sr.cf()
+}
+
+// slowSub: the consumer of a LIVE subscription pauses this long after every value - far below the
+// 5 s broadcast timeout, above finitestate's post-cancel grace (100 ms).  It keeps up: everything must arrive.
+func slowPauseUS(r interface{ Intn(int) int }) int { return 150000 + r.Intn(250000) }
+
+// drainWait waits until a slow consumer has stopped receiving (no new value for two of its pauses plus a
+// margin), so that the subscription is cancelled only when nothing is in flight any more: whatever is
+// missing then was lost while the subscription was live.
+func (sr *subRec) drainWait(max time.Duration) {
+	if sr.delayUS < 100000 {
+		return
+	}
+	idle := 2*time.Duration(sr.delayUS)*time.Microsecond + 200*time.Millisecond
+	deadline := time.Now().Add(max)
+	last, since := -1, time.Now()
+	for time.Now().Before(deadline) {
+		sr.mu.Lock()
+		n, closed := len(sr.got), sr.closed
+		sr.mu.Unlock()
+		if closed {
+			return
+		}
+		if n != last {
+			last, since = n, time.Now()
+		} else if time.Since(since) > idle {
+			return
+		}
+		time.Sleep(5 * time.Millisecond)
+	}
 }
 
 // closedEarly reports whether the consumer saw the channel closed although the context is live.
@@ -206,7 +239,8 @@ func (sr *subRec) String(uhi int) string {
 			ms = 0
 		}
 	}
-	return fmt.Sprintf("%d,%d,%d,%d,%d,%d,%s,%d", sr.lo, sr.hi, sr.ulo, u, bi(sr.closed), bi(sr.cancel), b.String(), ms)
+	// 9th field: how many values the consumer had received when the subscription was cancelled
+	return fmt.Sprintf("%d,%d,%d,%d,%d,%d,%s,%d,%d", sr.lo, sr.hi, sr.ulo, u, bi(sr.closed), bi(sr.cancel), b.String(), ms, sr.rcvAtCancel)
 }
 
 func joinSubs(subs []*subRec, uhi int) string {
